@@ -494,7 +494,7 @@ def calls(body, trailing='', free_set_value=True):
             out.append('gen.setter')
     for m in re.finditer(r'(?<![\w.:>])(?:this\s*->\s*)?([A-Za-z_]\w*)\s*(?:<[^;()<>]*>)?\s*\(', txt):
         out.append('self::' + m.group(1))
-    m = re.search(r'return\s+(__\w+__)\s*\(\s*std::forward<Args>\(args\)\.\.\.\s*\)', txt)
+    m = re.search(r'return\s+(?:this\s*->\s*)?(__\w+__)\s*\(\s*(?:::)?std::forward<Args>\(args\)\.\.\.\s*\)', txt)
     if m:
         out.append('forwardArgs:' + m.group(1))
     return out
